@@ -74,6 +74,7 @@ func genC18(r *Rnd, t Tier) *Case {
 		spec.ReqCtx = pick(r, ACtxBackground, ACtxCancel, ACtxValues, ACtxDeadline, ACtxValues, ACtxDeadlineValues)
 		spec.ExecCtx = pick(r, ACtxNone, ACtxBackground, ACtxCancel, ACtxValues, ACtxDeadline, ACtxDeadlineValues)
 	}
+	spec.ViaPolicies = r.P(0.3)
 	spec.CtxD = time.Duration(r.Range(50, 500)) * unit
 	spec.CtxD2 = time.Duration(r.Range(30, 600)) * unit // earlier or later than the caller's
 	if r.P(0.5) {
